@@ -1,7 +1,7 @@
 (* C17 - what a successful per-case check [check_ok] establishes about that case. *)
 From Coq Require Import ZArith QArith List Bool Lia.
 Import ListNotations.
-Require Import MV.Lib.Base MV.C17.Gen MV.C17.Model MV.C17.Run MV.C17.Proofs_Cert.
+Require Import MV.Lib.Base MV.C17.Gen MV.C17.Model MV.C17.Run MV.C17.Proofs_Cert MV.C17.Proofs_Harmonic MV.C17.Proofs_Max MV.C17.Proofs_Disk.
 Require Import MV.C17.Proofs_Scaled.
 Open Scope Z_scope.
 Open Scope Q_scope.
@@ -16,7 +16,8 @@ Theorem check_ok_establishes : forall c : tcase, check_ok c = true ->
   let p := read0 (vertex_writes (o_free c) (o_bnd c) U V Ub Vb) in
   is_solution_U T (o_free c) (o_bnd c) Ub Vb U /\ is_solution_V T (o_free c) (o_bnd c) Ub Vb V /\
   (promised c (fun v => znth (tabulate (exact_vertex_map c) (c_nv c)) v zero2) = true -> k_exact_orient c = true ->
-   (forall f, In f (c_faces c) -> 0 < face_det p f) \/ (forall f, In f (c_faces c) -> face_det p f < 0)).
+   (forall f, In f (c_faces c) -> 0 < face_det p f) \/ (forall f, In f (c_faces c) -> face_det p f < 0)) /\
+  (c_cotan c = false -> forall i, In i (o_free c) -> in_hull (map p (o_bnd c)) (p i)).
 Proof.
   intros c H B Ub Vb T U V p. unfold check_ok in H.
   repeat (apply andb_true_iff in H; let H' := fresh "K" in destruct H as [H H']).
@@ -25,7 +26,18 @@ Proof.
       pose proof (cert_sound_U _ _ _ _ _ _ _ HU) as SU; pose proof (cert_sound_V _ _ _ _ _ _ _ HV) as SV;
       pose proof HU as CU
   end.
-  split; [exact SU|]. split; [exact SV|].
+  split; [exact SU|]. split; [exact SV|]. split; cycle 1.
+  { intros Hc i Hi.
+    match goal with
+    | HL : disk_links_b _ _ _ _ = true, HB : (length (border_data c) =? length (o_bnd c))%nat = true |- _ =>
+        rename HL into DL; rename HB into LB
+    end.
+    apply Nat.eqb_eq in LB.
+    unfold T in SU, SV. rewrite Hc in SU, SV, DL.
+    change (in_hull (map (pos (o_free c) (o_bnd c) U V Ub Vb) (o_bnd c)) (pos (o_free c) (o_bnd c) U V Ub Vb i)).
+    apply (max_principle_uniform_checked (c_faces c) (c_cot c)); try assumption.
+    - unfold Ub, B. rewrite map_length. exact LB.
+    - unfold Vb, B. rewrite map_length. exact LB. }
   intros Hp He.
   match goal with
   | H0 : (if promised c _ then _ else true) = true |- _ => rename H0 into HF
